@@ -1266,6 +1266,11 @@ def build_operator_operand_fixup(capture_error_state):
                     capture_error_state(True, f'Values: {left_op} {op} {right_op}')
                     return VALUE_ERROR
 
+        if op == 'Pow' and is_number(left_op) and left_op < 0 and right_op % 1:
+            # python would answer with a complex number, excel has none
+            capture_error_state(True, f'Values: {left_op} {op} {right_op}')
+            return NUM_ERROR
+
         try:
             if op == 'USub':
                 return PYTHON_AST_OPERATORS[op](right_op)
@@ -1274,6 +1279,9 @@ def build_operator_operand_fixup(capture_error_state):
         except ZeroDivisionError:
             capture_error_state(True, f'Values: {left_op} {op} {right_op}')
             return DIV0
+        except OverflowError:
+            capture_error_state(True, f'Values: {left_op} {op} {right_op}')
+            return NUM_ERROR
         except TypeError:
             capture_error_state(True, f'Values: {left_op} {op} {right_op}')
             return VALUE_ERROR
